@@ -1,7 +1,34 @@
-//! op "ty" (stub: answers bad-op until the engine is built)
+//! op "ty": `bind_in_assignment`, `common_type`, `==`, `is_unknown`, `XFuncSpec::bind`, `resolve_bind`
+//! driven directly on types written in the prefix notation of the hooks (`verif_hooks/ty.rs`).
+//! One request carries a prelude (struct/union definitions compiled with the real compiler on top of
+//! the standard library, so natives and compound specs are the real ones) and many cases:
+//!   {"op":"ty","prelude":"struct A(..) ..","cases":[["bind","n:Sequence:1 i n:Sequence:1 u"], ..]}
+//! answer: {"rs":["some {}", ..]}; a case that panics is answered "panic <loc>".
 
+use crate::run::{R, T, W};
 use serde_json::{json, Value};
+use std::panic::{catch_unwind, AssertUnwindSafe};
+use xray::builtin::verif_hooks::ty as hooks;
+use xray::root_compilation_scope::RootCompilationScope;
+use xray::std_compilation_scope;
 
-pub fn op(_req: &Value) -> Value {
-    json!({"bad-op": true})
+pub fn op(req: &Value) -> Value {
+    let prelude = req["prelude"].as_str().unwrap_or("");
+    let mut comp: RootCompilationScope<W, R, T> = std_compilation_scope();
+    if let Err(e) = comp.feed_file(prelude) {
+        return json!({ "prelude-error": format!("{e}") });
+    }
+    let empty = vec![];
+    let cases = req["cases"].as_array().unwrap_or(&empty);
+    let mut rs = Vec::with_capacity(cases.len());
+    for c in cases {
+        let f = c[0].as_str().unwrap_or("");
+        let toks: Vec<&str> = c[1].as_str().unwrap_or("").split(' ').filter(|s| !s.is_empty()).collect();
+        let r = catch_unwind(AssertUnwindSafe(|| hooks::ty_op(&comp, f, &toks)));
+        rs.push(match r {
+            Ok(s) => s,
+            Err(_) => "panic".to_string(),
+        });
+    }
+    json!({ "rs": rs })
 }
